@@ -332,5 +332,35 @@ func checkC07(c *Ctx) {
 		shapes = append(shapes, fmt.Sprintf("hist/%d/%s", steps/4, featureKey(g.feat)))
 	}
 	var inputs []map[string]Val
+	// a default property written as 其X = ‹variable› takes a copy like every other store: what is
+	// done to the variable afterwards (in place) must not show in objects created later
+	{
+		type hp struct {
+			name, src, want string
+			in               map[string]Val
+		}
+		hps := []hp{
+			{"default-from-input-list", "输入库存\n定义盒：\n\t其内容 = 库存\n令甲 = （新建盒）\n以库存（后增：2）\n令乙 = （新建盒）\n输出【甲之内容，乙之内容，库存】\n", `list[list[num(1)],list[num(1)],list[num(1),num(2)]]`, map[string]Val{"库存": List(Num(1))}},
+			{"default-from-input-dict", "输入库存\n定义盒：\n\t其册 = 【“甲” = 库存】\n令甲 = （新建盒）\n库存#“k” = 9\n令乙 = （新建盒）\n输出【甲之册，乙之册】\n", `list[dict["甲"=dict["k"=num(1)]],dict["甲"=dict["k"=num(1)]]]`, map[string]Val{"库存": Dict([]string{"k"}, []Val{Num(1)})}},
+			{"default-from-parameter", "如何造？\n\t输入料\n\t定义盒：\n\t\t其内容 = 料\n\t令甲 = （新建盒）\n\t以料（后增：2）\n\t令乙 = （新建盒）\n\t输出【甲之内容，乙之内容】\n令原 = 【1】\n输出（造：原）\n", `list[list[num(1)],list[num(1)]]`, nil},
+			{"default-from-element", "输入表\n定义盒：\n\t其内容 = 表#“货”\n令甲 = （新建盒）\n以表#“货”（后增：2）\n令乙 = （新建盒）\n输出【甲之内容，乙之内容】\n", `list[list[num(1)],list[num(1)]]`, map[string]Val{"表": Dict([]string{"货"}, []Val{List(Num(1))})}},
+		}
+		hreqs := make([]Req, len(hps))
+		for k, h := range hps {
+			hreqs[k] = execReq(h.src)
+			hreqs[k].Inputs = h.in
+		}
+		c.runBatches(hreqs, 10, func(k int, req *Req, resp *Resp) {
+			c.Eval()
+			c.Nontrivial("hand|" + hps[k].name + "|" + resp.Kind)
+			got := resp.Kind
+			if resp.Kind == "value" && resp.Val != nil {
+				got = resp.Val.String()
+			}
+			if got != hps[k].want {
+				c.Violation("hand:"+hps[k].name, fmt.Sprintf("%s: outcome %s %v, expected %s\nprogram:\n%s", hps[k].name, got, resp.Err, hps[k].want, hps[k].src), map[string]interface{}{"req": req})
+			}
+		})
+	}
 	c.runRefCases("heap", progs, inputs, shapes, nil, nil)
 }
